@@ -10,7 +10,8 @@ CONSTANTS MaxHeight,     \* blocks after the genesis block
           MaxTx,         \* transactions per behaviour
           MaxPo,         \* purchase orders per behaviour
           MaxFail,       \* rejected transactions per behaviour (rationed inside Next)
-          Presets        \* enterprise parameter presets reachable by governance: Seq of params
+          Presets,       \* enterprise parameter presets reachable by governance: Seq of params
+          FailingGov     \* TRUE: the only governance transaction is a proposal that is rolled back when it executes
 VARIABLES st, phase, hist, nTx, nFail
 vars == <<st, phase, hist, nTx, nFail>>
 
@@ -34,8 +35,8 @@ TxAlphabet ==
   \cup { Tx(<<[t |-> "Whitelist", signer |-> a, addr |-> b, act |-> c]>>) : a \in {"A1", "A3"}, b \in {"A3", "A4"}, c \in {"add", "remove"} }
   \* an order raised inside a transaction that is rolled back (the id stays free)
   \cup { Tx(<<[t |-> "Raise", pur |-> "A3", amt |-> 5, denom |-> "nund"], [t |-> "Raise", pur |-> "A3", amt |-> 3, denom |-> "nund"], [t |-> "Raise", pur |-> "A3", amt |-> 3, denom |-> "foo"]>>) }
-  \cup { GovTx(Presets[i]) : i \in DOMAIN Presets }
-  \cup { GovTxFailingFor(st, "ent", Presets[1]) }
+  \cup { GovTx(Presets[i]) : i \in (IF FailingGov THEN {} ELSE DOMAIN Presets) }
+  \cup (IF FailingGov THEN { GovTxFailingFor(st, "ent", Presets[i]) : i \in DOMAIN Presets } ELSE {})
 
 \* the rolled-back creation scripts (three messages) do not use up the ration of failing transactions
 Scripted(ev) == Len(ev.msgs) >= 3
